@@ -7,8 +7,10 @@
 use std::{
     collections::HashMap,
     hash::{BuildHasher, Hash},
+    task::{Context, Poll},
     time::{Duration, Instant},
 };
+use tokio_util::time::delay_queue::{self, DelayQueue};
 
 #[cfg(feature = "serde1")]
 #[cfg_attr(docsrs, doc(cfg(feature = "serde1")))]
@@ -45,6 +47,68 @@ pub(crate) fn format_deadline(deadline: &Instant) -> humantime::Rfc3339Timestamp
 /// timeouts beyond roughly 2.18 years; deadlines further out are tracked as if they were this far
 /// away.
 pub(crate) const MAX_TIMEOUT: Duration = Duration::from_secs(2 * 365 * 24 * 60 * 60);
+
+/// An empty deadline queue older than this is replaced by a fresh one.
+const MAX_IDLE_QUEUE_AGE: Duration = Duration::from_secs(24 * 60 * 60);
+
+/// The deadline timers of the in-flight requests of one connection.
+///
+/// The timer wheel behind [`DelayQueue`] measures time from the queue's creation and only moves
+/// forward when a timer fires, so on a connection that has been open for a while even a timeout
+/// of [`MAX_TIMEOUT`] can be out of its range. Timers are therefore capped at `MAX_TIMEOUT` past
+/// the creation of the queue, and an empty queue that has aged is replaced by a new one.
+#[derive(Debug)]
+pub(crate) struct Deadlines {
+    queue: DelayQueue<u64>,
+    created: tokio::time::Instant,
+}
+
+impl Default for Deadlines {
+    fn default() -> Self {
+        Self {
+            created: tokio::time::Instant::now(),
+            queue: DelayQueue::new(),
+        }
+    }
+}
+
+impl Deadlines {
+    /// Arms a timer for the request that fires after `timeout`.
+    pub(crate) fn insert(&mut self, request_id: u64, timeout: Duration) -> delay_queue::Key {
+        let now = tokio::time::Instant::now();
+        if self.queue.is_empty() && now.saturating_duration_since(self.created) > MAX_IDLE_QUEUE_AGE
+        {
+            *self = Self::default();
+        }
+        let latest = self.created + MAX_TIMEOUT;
+        self.queue
+            .insert(request_id, timeout.min(latest.saturating_duration_since(now)))
+    }
+
+    pub(crate) fn remove(&mut self, key: &delay_queue::Key) {
+        self.queue.remove(key);
+    }
+
+    pub(crate) fn clear(&mut self) {
+        self.queue.clear();
+    }
+
+    pub(crate) fn is_empty(&self) -> bool {
+        self.queue.is_empty()
+    }
+
+    #[cfg(tarpc_verif)]
+    pub(crate) fn len(&self) -> usize {
+        self.queue.len()
+    }
+
+    pub(crate) fn poll_expired(
+        &mut self,
+        cx: &mut Context<'_>,
+    ) -> Poll<Option<delay_queue::Expired<u64>>> {
+        self.queue.poll_expired(cx)
+    }
+}
 
 /// Collection compaction; configurable `shrink_to_fit`.
 pub trait Compact {
